@@ -130,6 +130,19 @@ CLAIMED = {
    note="Trusted: Coq kernel+vm_compute; pygls/lsprotocol (transport and text synchronisation bypassed: handlers are called directly). Two "
         "defects repaired (e105e67, b16dc95); known finding C18-K1 (consequence of C06-K1).",
    technique="Coq refinement proof over all event sequences + vm_compute correspondence against the real handlers", design="7/C18"),
+ 'C08': dict(
+   text="Coq render lemmas, proved for EVERY flag/item list (any length, none/all flags anywhere, comments and deprecations anywhere): the "
+        "for-loops of the C++, Objective-C and C++/CLI flags templates - as translated from /repo by the template translator on this very "
+        "run - print one enumerator per flag whose value expression is that of flag_enumerators (counter threading through the running "
+        "namespace counter, the nested filtered loop of the `all` flag, loop.last commas); the Java flags loop prints exactly the ordinary "
+        "flags in order; the C++ enum loop all items in order. Arithmetic theorems: the i-th ordinary flag is 1u<<i, none is 0, all is the "
+        "union, one enumerator per flag, enum ordinals, Java ordinal i = bit i (cross target); the all-before-ordinary case is REFUTED with "
+        "a witness (finding C08-K1). A changed template changes the regenerated term and breaks the render lemma. Tie of the interpreter: "
+        "K-jinja renders the sliced loops with Jinja itself on the real marshalling objects and compares with the TIR interpreter "
+        "(vm_compute) for all 8 enum/flags templates, exhaustively for all none/all patterns up to length 3 (5 in thorough).",
+   note="Trusted: Coq kernel+vm_compute; the template translator and jinja2's parser; Jinja runtime as reference for the interpreter; C's "
+        "enumerator semantics as stated in Lang/EnumBody.v; JniFlags support code (read). Known finding C08-K1.",
+   technique="Coq proof by induction over flag lists on the translated templates (deep embedding of Jinja) + vm_compute correspondence against Jinja itself", design="7/C08"),
 }
 PENDING_REASON = "check not built yet in this session (work in progress; see DESIGN.md section 10 build order)"
 HOOK_COMMITS = []
